@@ -4,6 +4,7 @@ CONSTANTS
   MaxE = 5
   StartVals = {0, 1, 2, 3}
   Defaults = {0, 1}
+  FamIdx = {1, 2, 3, 4, 5, 6}
   Bounds <- BoundsInf12
 SPECIFICATION MCSpec
 INVARIANT ConfigInClass MCTypeOK MCStepBound MCBelowLFP MCAboveStart MCWorklistInv MCResult MCHonestStabilized MCStabilizedIsLeast
